@@ -1,4 +1,4 @@
-\* one client, 6 datagrams (valid DNS / non-DNS / wrong key on the live association), expiry and re-creation
+\* step-synchronous schedules, one client, 6 datagrams (valid DNS / non-DNS / wrong key on the live association), expiry and re-creation
 SPECIFICATION Spec
 CONSTANTS
   Clients = {1}
@@ -13,7 +13,7 @@ CONSTANTS
   Fam <- MCFam
   DgAlpha <- DgLong
   RpAlpha <- RpLong
-  Sync = FALSE
+  Sync = TRUE
   T = 2
   DNST = 3
   Ticks = {2}
